@@ -367,6 +367,13 @@ def venn_predicate(fi):
                 continue
             if isinstance(st, ast.If):
                 # conversions under a type test (`if not isinstance(x, set): x = set(x)`): both branches must agree
+                def _ret_false(blk):
+                    return len(blk) == 1 and isinstance(blk[0], ast.Return) and isinstance(blk[0].value, ast.Constant) and blk[0].value.value is False
+                if st.orelse and _ret_false(st.orelse) and any(isinstance(x, ast.Return) for x in ast.walk(st)):
+                    # `if P: <... return Q>` / `else: return False`      ==      P and Q
+                    return pred(st.test, env) | block(st.body, dict(env))
+                if st.orelse and _ret_false(st.body) and isinstance(st.test, ast.UnaryOp) and isinstance(st.test.op, ast.Not):
+                    return pred(st.test.operand, env) | block(st.orelse, dict(env))
                 if any(isinstance(x, ast.Return) for x in ast.walk(st)):
                     # `if not P: return False` ; ...   /  `if P: return Q` `return False`
                     if len(st.body) == 1 and isinstance(st.body[0], ast.Return) and isinstance(st.body[0].value, ast.Constant) and \
